@@ -89,6 +89,7 @@ func runConc(cfg concCfg, st *concStats) (fail string) {
 		return fail != ""
 	}
 	var done int32
+	var ticks int64 // completed writer operations + reader steps, for the watchdog
 	var wg sync.WaitGroup
 	// writer
 	wr := r.Fork()
@@ -114,6 +115,7 @@ func runConc(cfg concCfg, st *concStats) (fail string) {
 					setFail("writer: Delete returned %v", err)
 				}
 			}
+			atomic.AddInt64(&ticks, 1)
 			if wr.Chance(1, 8) {
 				runtime.Gosched()
 			}
@@ -149,6 +151,7 @@ func runConc(cfg concCfg, st *concStats) (fail string) {
 				}
 				it := db.NewIterator(sl)
 				check := func(what string) bool {
+					atomic.AddInt64(&ticks, 1)
 					if !it.Valid() {
 						if it.Key() != nil || it.Value() != nil {
 							setFail("reader %d: %s: invalid iterator with non-nil key/value", id, what)
@@ -222,6 +225,7 @@ func runConc(cfg concCfg, st *concStats) (fail string) {
 				case 2: // random walk
 					for n := rr.Range(5, 60); n > 0 && !failed(); n-- {
 						atomic.AddInt64(&st.steps, 1)
+						atomic.AddInt64(&ticks, 1)
 						var prevKey []byte
 						was := it.Valid()
 						if was {
@@ -261,6 +265,7 @@ func runConc(cfg concCfg, st *concStats) (fail string) {
 				default: // point reads
 					for n := rr.Range(5, 40); n > 0 && !failed(); n-- {
 						atomic.AddInt64(&st.gets, 1)
+						atomic.AddInt64(&ticks, 1)
 						k := genProbe(rr, pool)
 						sv, isStable := stable.get(k)
 						switch rr.Intn(3) {
@@ -304,10 +309,28 @@ func runConc(cfg concCfg, st *concStats) (fail string) {
 	}
 	fin := make(chan struct{})
 	go func() { wg.Wait(); close(fin) }()
-	select {
-	case <-fin:
-	case <-time.After(120 * time.Second):
-		setFail("round did not finish within 120 s (writer done: %v): a call blocks or loops", atomic.LoadInt32(&done) == 1)
+	// watchdog on progress (the machine may be heavily loaded): hung = no writer operation and no
+	// reader step completed for 60 s
+	tick := time.NewTicker(time.Second)
+	defer tick.Stop()
+	lastTicks, same := int64(-1), 0
+wait:
+	for {
+		select {
+		case <-fin:
+			break wait
+		case <-tick.C:
+			cur := atomic.LoadInt64(&ticks)
+			if cur == lastTicks {
+				same++
+			} else {
+				lastTicks, same = cur, 0
+			}
+			if same >= 60 {
+				setFail("no writer operation and no reader step completed for 60 s (writer done: %v): a call blocks or loops", atomic.LoadInt32(&done) == 1)
+				break wait
+			}
+		}
 	}
 	// afterwards the structure must still be a sorted map of the stable keys plus whatever the
 	// writer left; checked sequentially through Get of every stable key
